@@ -22,6 +22,15 @@ fn verif_enum_shrex_eds_response() {
         // a different header's DAH
         cases += 1;
         if ExtendedDataSquare::decode_and_verify(&payload, &id, &other, AppVersion::V2).is_ok() { println!("WITNESS C09: payload accepted against another block's DAH (width {width})"); panic!("witness"); }
+        // a DAH that agrees with the payload on one axis only (rows of this square, columns of another one, and vice versa)
+        let other_eds_dah = &other;
+        for (rows, cols, what) in [(dah.row_roots().to_vec(), other_eds_dah.column_roots().to_vec(), "own rows + foreign columns"),
+                                   (other_eds_dah.row_roots().to_vec(), dah.column_roots().to_vec(), "foreign rows + own columns")] {
+            cases += 1;
+            let mixed = DataAvailabilityHeader::new_unchecked(rows, cols);
+            if mixed == dah { continue; }
+            if ExtendedDataSquare::decode_and_verify(&payload, &id, &mixed, AppVersion::V2).is_ok() { println!("WITNESS C09: payload accepted against a DAH with {what} (width {width})"); panic!("witness"); }
+        }
         // every truncation to a whole or partial number of shares, and the empty payload
         for cut in [0usize, 1, SHARE_SIZE - 1, SHARE_SIZE, payload.len() - SHARE_SIZE, payload.len() - 1] {
             if cut >= payload.len() { continue; }
